@@ -23,8 +23,12 @@ type scriptFacts struct {
 }
 
 var scriptFreeAudit = map[string]string{
-	// (function name → reason it cannot run user code although the graph says it might)
+	// (function name → reason it cannot run user code although the call graph says it might)
+	"(*destructKeyedSource).w": "ToObject of the wrapped destructuring source: an object is returned as is, a primitive is wrapped in its intrinsic wrapper object; instantiating intrinsic prototypes from templates runs no user code (the call graph only reaches user code through objectImpl._putProp, whose reflect-backed implementation is never the kind being built)",
 }
+
+// ScriptFreeAudit exposes the audited table (listed as assumptions in evidence).
+func ScriptFreeAudit() map[string]string { return scriptFreeAudit }
 
 // scriptFreeInvokeAudit: interface methods (by "iface.method") every implementation of which is
 // audited not to run user code; rules that rely on an entry verify the implementations structurally.
@@ -285,9 +289,10 @@ func (p *Prog) externalMayCallBack(callee *ssa.Function, cc *ssa.CallCommon, fre
 		}
 		if callbackCapable(a.Type(), 0) {
 			// a few heavily used, well-known pure consumers
-			if callee.Pkg != nil {
-				switch callee.Pkg.Pkg.Path() {
-				case "reflect", "unsafe", "math", "math/bits", "strconv", "unicode", "unicode/utf8", "unicode/utf16", "strings", "bytes", "sync/atomic", "time", "math/big", "hash/maphash", "errors":
+			if pp := funcPkgPath(callee); pp != "" {
+				switch pp {
+				case "reflect", "unsafe", "math", "math/bits", "strconv", "unicode", "unicode/utf8", "unicode/utf16", "strings", "bytes", "sync/atomic", "time", "math/big", "hash/maphash", "errors", "weak", "runtime":
+					// weak.Make / runtime.AddCleanup: the cleanup runs on a GC goroutine, never synchronously
 					return ""
 				}
 			}
@@ -302,7 +307,7 @@ func (p *Prog) externalMayCallBack(callee *ssa.Function, cc *ssa.CallCommon, fre
 }
 
 var opaqueStdPkgs = map[string]bool{"sync": true, "sync/atomic": true, "internal/sync": true, "time": true, "reflect": true, "math/big": true,
-	"strings": true, "bytes": true, "unicode": true, "regexp": true, "regexp/syntax": true, "math/rand": true, "hash/maphash": true, "unsafe": true}
+	"strings": true, "bytes": true, "unicode": true, "regexp": true, "regexp/syntax": true, "math/rand": true, "hash/maphash": true, "unsafe": true, "weak": true}
 
 func callbackCapable(t types.Type, depth int) bool {
 	if depth > 6 {
@@ -338,6 +343,20 @@ func callbackCapable(t types.Type, depth int) bool {
 		return false
 	}
 	return hasModuleMethods(t)
+}
+
+// funcPkgPath also resolves instantiations of generic functions (whose Pkg is nil).
+func funcPkgPath(f *ssa.Function) string {
+	if f.Pkg != nil {
+		return f.Pkg.Pkg.Path()
+	}
+	if o := f.Origin(); o != nil && o.Pkg != nil {
+		return o.Pkg.Pkg.Path()
+	}
+	if obj := f.Object(); obj != nil && obj.Pkg() != nil {
+		return obj.Pkg().Path()
+	}
+	return ""
 }
 
 func hasModuleMethods(t types.Type) bool {
